@@ -53,6 +53,11 @@ type Path struct {
 	unknowns   int
 	concrete   map[string]uint64 // non-nil: concrete replay mode
 	chosen     map[string]uint64
+	known      map[*Term]int64
+	decSites   []string
+	atoms      map[*Term]bool
+	epoch      int
+	simpMemo   map[*Term]simpEnt
 	obsVals    []obsRec
 	asserts    int
 	inconclusive int
@@ -85,6 +90,8 @@ type Explorer struct {
 	maxDepthDec int
 	started     time.Time
 	skippedInit map[string]bool
+	idle        time.Duration
+	modelTime   time.Duration
 	truncated   bool
 }
 
@@ -215,6 +222,16 @@ func (p *Path) fork(in *Interp, kind DecKind, alts []Lit, fr *Frame) int {
 		in.ex.push(pre)
 	}
 	p.trace = append(p.trace, Decision{Kind: kind, Choice: first})
+	if traceDecs {
+		p.decSites = append(p.decSites, siteOf(fr))
+		if len(p.decSites) == 150 {
+			h := map[string]int{}
+			for _, s := range p.decSites {
+				h[s]++
+			}
+			fmt.Fprintf(os.Stderr, "gosym: deep path (150 fresh decisions): %v\n", h)
+		}
+	}
 	l := alts[first]
 	if !l.t.IsConst() {
 		p.pc = append(p.pc, l)
@@ -230,6 +247,116 @@ func (p *Path) fork(in *Interp, kind DecKind, alts []Lit, fr *Frame) int {
 	return first
 }
 
+func (p *Path) setKnown(t *Term, v int64) {
+	if p.known == nil {
+		p.known = map[*Term]int64{}
+	}
+	p.known[t] = v
+	p.epoch++
+}
+
+// learn records facts implied by asserting literal (t == val) in the path condition.
+func (p *Path) learn(t *Term, val bool) {
+	if t.IsConst() {
+		return
+	}
+	if p.atoms == nil {
+		p.atoms = map[*Term]bool{}
+	}
+	switch t.op {
+	case OpNot:
+		p.learn(t.a, !val)
+		return
+	case OpAnd:
+		if val {
+			p.learn(t.a, true)
+			p.learn(t.b, true)
+		}
+	case OpOr:
+		if !val {
+			p.learn(t.a, false)
+			p.learn(t.b, false)
+		}
+	case OpEq:
+		if val && t.a.w != 0 {
+			if t.b.IsConst() && !t.a.IsConst() {
+				p.setKnown(t.a, sext(t.b.k, int(t.b.w)))
+			} else if t.a.IsConst() && !t.b.IsConst() {
+				p.setKnown(t.b, sext(t.a.k, int(t.a.w)))
+			}
+		}
+	}
+	p.atoms[t] = val
+	p.epoch++
+}
+
+type simpEnt struct {
+	res   *Term
+	epoch int
+}
+
+// simp rewrites t under the facts learned on this path (sound: every fact is implied by pc).
+func (p *Path) simp(in *Interp, t *Term) *Term {
+	if t.IsConst() || (len(p.atoms) == 0 && len(p.known) == 0) {
+		return t
+	}
+	if p.simpMemo == nil {
+		p.simpMemo = map[*Term]simpEnt{}
+	}
+	return p.simpRec(in, t, 0)
+}
+
+func (p *Path) simpRec(in *Interp, t *Term, depth int) *Term {
+	if t.IsConst() {
+		return t
+	}
+	if e, ok := p.simpMemo[t]; ok && (e.epoch == p.epoch || e.res.IsConst()) {
+		return e.res
+	}
+	var res *Term
+	if t.w == 0 {
+		if v, ok := p.atoms[t]; ok {
+			res = in.ts.Bool(v)
+		}
+	} else if v, ok := p.known[t]; ok {
+		res = in.ts.Const(uint64(v), int(t.w))
+	}
+	if res == nil {
+		if t.op == OpVar || t.op == OpBVar || depth > 400 {
+			res = t
+		} else {
+			var a, b, c *Term
+			if t.a != nil {
+				a = p.simpRec(in, t.a, depth+1)
+			}
+			// short-circuit ite on a decided condition
+			if t.op == OpIte && a.IsConst() {
+				if a.op == OpTrue {
+					res = p.simpRec(in, t.b, depth+1)
+				} else {
+					res = p.simpRec(in, t.c, depth+1)
+				}
+			} else {
+				if t.b != nil {
+					b = p.simpRec(in, t.b, depth+1)
+				}
+				if t.c != nil {
+					c = p.simpRec(in, t.c, depth+1)
+				}
+				if a == t.a && b == t.b && c == t.c {
+					res = t
+				} else {
+					res = in.ts.Rebuild(t, a, b, c)
+				}
+			}
+		}
+	}
+	p.simpMemo[t] = simpEnt{res, p.epoch}
+	return res
+}
+
+var traceDecs = os.Getenv("GOSYM_TRACE_DECS") != ""
+
 func siteOf(fr *Frame) string {
 	if fr == nil {
 		return "?"
@@ -242,7 +369,16 @@ func (p *Path) branch(in *Interp, c *Term, fr *Frame) int {
 	if p.concrete != nil {
 		panic("symbolic branch in concrete mode: " + siteOf(fr))
 	}
-	return p.fork(in, DBranch, []Lit{{c, false}, {c, true}}, fr)
+	c = p.simp(in, c)
+	if c.op == OpTrue {
+		return 0
+	}
+	if c.op == OpFalse {
+		return 1
+	}
+	r := p.fork(in, DBranch, []Lit{{c, false}, {c, true}}, fr)
+	p.learn(c, r == 0)
+	return r
 }
 
 // choose forks over n unconditional alternatives.
@@ -259,10 +395,21 @@ func (p *Path) choose(in *Interp, kind DecKind, n int, fr *Frame) int {
 
 // concretize case-splits a symbolic integer over its feasible values.
 func (p *Path) concretize(in *Interp, t *Term, fr *Frame, what string) int64 {
+	if v, ok := p.known[t]; ok {
+		return v
+	}
+	if st := p.simp(in, t); st.IsConst() {
+		return sext(st.k, int(st.w))
+	} else if st != t {
+		v := p.concretize(in, st, fr, what)
+		p.setKnown(t, v)
+		return v
+	}
 	pos := len(p.trace)
 	w := int(t.w)
 	if pos < len(p.prefix) {
 		d := p.prefix[pos]
+		p.setKnown(t, d.Val)
 		if d.Kind != DConc {
 			panic(fmt.Sprintf("gosym: non-deterministic re-execution (concretize) at %s", siteOf(fr)))
 		}
@@ -309,11 +456,18 @@ func (p *Path) concretize(in *Interp, t *Term, fr *Frame, what string) int64 {
 	p.trace = append(p.trace, Decision{Kind: DConc, Val: vals[0]})
 	p.pc = append(p.pc, Lit{in.ts.Eq(t, in.ts.Const(uint64(vals[0]), w)), false})
 	p.modelValid = false
+	p.setKnown(t, vals[0])
 	return vals[0]
 }
 
 // assume adds c to the path condition, ending the path when infeasible.
 func (p *Path) assume(in *Interp, c *Term) {
+	c = p.simp(in, c)
+	defer func() {
+		if !c.IsConst() {
+			p.learn(c, true)
+		}
+	}()
 	if c.op == OpTrue {
 		return
 	}
@@ -360,8 +514,9 @@ func (ex *Explorer) push(pre []Decision) {
 }
 
 func (ex *Explorer) pop() ([]Decision, bool) {
+	t0 := time.Now()
 	ex.mu.Lock()
-	defer ex.mu.Unlock()
+	defer func() { ex.idle += time.Since(t0); ex.mu.Unlock() }()
 	for {
 		if ex.stop {
 			return nil, false
@@ -396,6 +551,13 @@ func (ex *Explorer) record(in *Interp, p *Path, end pathEnd, vios []*Violation) 
 	ex.ends[end.kind]++
 	if end.kind != "ok" && end.kind != "assume-false" && len(ex.endSamples[end.kind]) < 5 {
 		ex.endSamples[end.kind] = append(ex.endSamples[end.kind], end.msg)
+	}
+	if traceDecs && len(p.decSites) > 60 {
+		h := map[string]int{}
+		for _, s := range p.decSites {
+			h[s]++
+		}
+		fmt.Fprintf(os.Stderr, "gosym: deep path (%d fresh decisions): %v\n", len(p.decSites), h)
 	}
 	ex.decisions += len(p.trace)
 	if len(p.trace) > ex.maxDepthDec {
